@@ -487,3 +487,4 @@ def basicRequest (P : Prims) (decodeText : Str → Option Str) (cfg : BasicCfg) 
     | some h => basicAuth P cfg (some h)
 
 end CpModel.Auth
+
